@@ -212,6 +212,11 @@ class _ReadSourceGenerator:
 
             # Everything else - basic and composite types (and arrays of them)
             else:
+                if not current_block and field.offset is not None and field.offset != current_offset:
+                    # The block starts after a gap (alignment or an explicit offset) that no preceding read covered
+                    yield f"stream.seek(o + {field.offset})"
+                    current_offset = field.offset
+
                 current_block.append(field)
 
             if current_offset is not None and size is not None and (not field.bits or bits_rollover):
